@@ -51,7 +51,7 @@ def cases(ctx):
     for i in range(ctx.n(60, 3000)):
         yield {"kind": "usermix", "rseed": rng.randrange(10 ** 9)}
     for i in range(ctx.n(500, 40000)):
-        m = models.gen_model(rng, n_ops=rng.randint(1, 10), sinks=False, table=models.gen_table(rng, exotic_names=False))   # READ may take its result name from the column
+        m = models.gen_model(rng, n_ops=rng.randint(1, 10), sinks=False, table=models.gen_table(rng, exotic_names=False), metadata=rng.random() < 0.35)   # READ may take its result name from the column
         if i % 5 == 0:
             # a legal POSIX file name with a backslash in it (what a Windows-style relative path looks like here)
             newname = rng.choice(["da\\ta.csv", "in\\put\\table.csv", "t\\x.csv"])
